@@ -33,6 +33,7 @@ struct Ctx
     int producer_tid[64]; // producer index -> logical thread
     quintptr qtid[64] = { 0 }; // logical thread -> Qt thread id
     int cur_main_op = -1;
+    QObject *receiver = nullptr; // lives in the main thread; connected to the signal sinks of the plan
     bool quit_connected = false; // the running logger thread was started while an application object existed
     bool is_worker[64] = { false };
     int nested = 0; // messages logged by the logger thread itself (relog handler)
